@@ -122,11 +122,23 @@ def report(ck, label, f, kw, m, perms):
             conc[k] = numpy.array([R.model_value(m, x) for x in v.e], dtype=v.dtype)
         else:
             conc[k] = v
-    base = numpy.asarray(f(**conc))
+    def call(kw2):
+        try:
+            return numpy.asarray(f(**kw2))
+        except Exception as e:   # noqa: BLE001 -- raising in one row order only is a dependence on the order
+            return f"raises {type(e).__name__}: {e}"
+
+    base = call(conc)
     for pi in perms:
-        out = numpy.asarray(f(**{k: (v[list(pi)] if isinstance(v, numpy.ndarray) else v) for k, v in conc.items()}))
-        if not numpy.allclose(out.astype(float), base[list(pi)].astype(float), rtol=1e-9, atol=1e-12):
-            ck.violation(["column-code", label.split("[")[0]], f"{label}: result depends on the row order: {({k: v.tolist() for k, v in conc.items() if isinstance(v, numpy.ndarray)})} order {pi}: {out.tolist()} vs {base[list(pi)].tolist()}",
+        out = call({k: (v[list(pi)] if isinstance(v, numpy.ndarray) else v) for k, v in conc.items()})
+        if isinstance(base, str) and isinstance(out, str):
+            continue
+        if isinstance(base, str) or isinstance(out, str):
+            differs, shown = True, (out if isinstance(out, str) else out.tolist(), base if isinstance(base, str) else base[list(pi)].tolist())
+        else:
+            differs, shown = not numpy.allclose(out.astype(float), base[list(pi)].astype(float), rtol=1e-9, atol=1e-12), (out.tolist(), base[list(pi)].tolist())
+        if differs:
+            ck.violation(["column-code", label.split("[")[0]], f"{label}: result depends on the row order: {({k: v.tolist() for k, v in conc.items() if isinstance(v, numpy.ndarray)})} order {pi}: {shown[0]} vs {shown[1]}",
                          {"kind": "column", "label": label})
             return
     common.spurious("C01", f"{label}: order model does not reproduce")
